@@ -12,6 +12,10 @@ def main():
     prop = a.prop.upper()
     seed = int(os.environ.get('VERIF_SEED', '0') or 0)
     sys.setrecursionlimit(10000)
+    alt = os.environ.get('VERIF_REPO')  # developer aid: analyse another checkout (seeded mutants); never set by MANIFEST commands
+    if alt:
+        sys.path.insert(0, alt)
+        os.environ['PYTHONPATH'] = alt + os.pathsep + os.environ.get('PYTHONPATH', '')
     if prop == 'MODEL':
         from harness import model
         return model.main(a.tier)
